@@ -192,6 +192,14 @@ func buildCertificates(
 
 		updateCrt.Spec = crt.Spec
 		updateCrt.Labels = crt.Labels
+		if v, ok := crt.Annotations[certMgrTempCertAnnotation]; ok {
+			if updateCrt.Annotations == nil {
+				updateCrt.Annotations = make(map[string]string)
+			}
+			updateCrt.Annotations[certMgrTempCertAnnotation] = v
+		} else {
+			delete(updateCrt.Annotations, certMgrTempCertAnnotation)
+		}
 
 		updateCrts = append(updateCrts, updateCrt)
 	} else {
@@ -254,6 +262,26 @@ func certNeedsUpdate(a, b *cmapi.Certificate) bool {
 	}
 
 	if a.Spec.IssuerRef.Kind != b.Spec.IssuerRef.Kind {
+		return true
+	}
+
+	if a.Spec.IssuerRef.Group != b.Spec.IssuerRef.Group {
+		return true
+	}
+
+	if !reflect.DeepEqual(a.Spec.Duration, b.Spec.Duration) {
+		return true
+	}
+
+	if !reflect.DeepEqual(a.Spec.RenewBefore, b.Spec.RenewBefore) {
+		return true
+	}
+
+	if !reflect.DeepEqual(a.Spec.Usages, b.Spec.Usages) {
+		return true
+	}
+
+	if a.Annotations[certMgrTempCertAnnotation] != b.Annotations[certMgrTempCertAnnotation] {
 		return true
 	}
 
